@@ -136,7 +136,7 @@ theorem patch_metadata (base P : ImgA) (a0 a1 : Axis) (i j : Nat) (hcs : base.md
       (∀ v : List Rat, v.length = 2 → coordWith am P.md.cs v = coordWith am base.md.cs (List.zipWith (· + ·) v (start.map fun s => ((s : Nat) : Rat)))) ∧
       (∀ p, p < 2 → P.md.cs.h p = base.md.cs.h p) ∧
       P.md.time = base.md.time ∧ P.md.date = base.md.date ∧ P.md.scalar = base.md.scalar ∧
-      (∀ (t : Nat) (v : List Nat) (c : Nat), v.length = 2 → P.data t v c = base.data t (List.zipWith (· + ·) v start) c) := by
+      (∀ (t : Nat) (v : List Nat) (c : List Nat), v.length = 2 → P.data t v c = base.data t (List.zipWith (· + ·) v start) c) := by
   intro start
   unfold patchOf at h
   simp only [bind, Except.bind] at h
@@ -187,6 +187,61 @@ theorem blend_spec_partial (a : Axis) (hov : a.ov ≤ a.pv) (hcover : a.N ≤ a.
     ∀ (w val : Nat → Rat) (b : Rat), ((List.range a.n).map w).sum = 1 → (∀ k, k < a.n → w k ≠ 0 → val k = b) →
       blendAt w val a.n = b :=
   ⟨interiorWeight_sum_one a hov hcover x hx, fun w val b h1 hv => blend_partition_of_unity w val a.n b h1 hv⟩
+
+/-- `Patches.position`: with at least two patches per axis, the first patch is left/bottom, the last right/top and all others
+internal — a total classification; with ONE patch per axis the single patch is classified left/bottom only (the `elif`). -/
+theorem position_classifies (n0 n1 i j : Nat) (hi : i < n0) (hj : j < n1) :
+    ((position n0 n1 i j).1 = .left ↔ i = 0) ∧ ((position n0 n1 i j).1 = .right ↔ (i = n0 - 1 ∧ i ≠ 0)) ∧
+    ((position n0 n1 i j).2 = .bottom ↔ j = 0) ∧ ((position n0 n1 i j).2 = .top ↔ (j = n1 - 1 ∧ j ≠ 0)) := by
+  unfold position
+  refine ⟨?_, ?_, ?_, ?_⟩
+  · by_cases h : i = 0 <;> simp [h]; split <;> simp
+  · by_cases h : i = 0
+    · simp [h]
+    · have : 0 < n0 := by omega
+      by_cases h2 : i = n0 - 1 <;> simp [h, h2, this]
+  · by_cases h : j = 0 <;> simp [h]; split <;> simp
+  · by_cases h : j = 0
+    · simp [h]
+    · have : 0 < n1 := by omega
+      by_cases h2 : j = n1 - 1 <;> simp [h, h2, this]
+
+/-- the public tables enumerate every patch exactly once, rows outer, columns inner. -/
+theorem patch_order (n0 n1 : Nat) :
+    (patchOrder n0 n1).length = n0 * n1 ∧ ∀ i j, i < n0 → j < n1 → (patchOrder n0 n1)[i * n1 + j]? = some (i, j) := by
+  constructor
+  · unfold patchOrder
+    induction n0 with
+    | zero => simp
+    | succ k ih => rw [List.range_succ, List.flatMap_append, List.length_append, ih]; simp; ring
+  · intro i j hi hj
+    unfold patchOrder
+    induction n0 generalizing i with
+    | zero => omega
+    | succ k ih =>
+      rw [List.range_succ, List.flatMap_append]
+      have hlen : ((List.range k).flatMap fun i => (List.range n1).map fun j => (i, j)).length = k * n1 := by
+        clear ih hi
+        induction k with
+        | zero => simp
+        | succ m ihm => rw [List.range_succ, List.flatMap_append, List.length_append, ihm]; simp; ring
+      by_cases hik : i < k
+      · have hlt : i * n1 + j < k * n1 := by
+          have : (i + 1) * n1 ≤ k * n1 := Nat.mul_le_mul_right _ hik
+          have e : (i + 1) * n1 = i * n1 + n1 := by ring
+          omega
+        rw [List.getElem?_append_left (by rw [hlen]; exact hlt)]
+        exact ih i hik
+      · have e : i = k := by omega
+        subst e
+        rw [List.getElem?_append_right (by rw [hlen]; omega), hlen]
+        simp [hj]
+
+/-- float bridge for the overlap `ov = num_voxels(rel · D/n)` = `ceil` of a float quotient whose exact value is `x = rel·N/n`:
+an evaluation error `|e| < δ` cannot change `⌈x⌉` unless `x` is within `δ` of an integer from below or IS an integer (breakpoint);
+the check measures `e` on every general-stream configuration and counts the breakpoint cases. -/
+theorem ov_ceil_bridge (x e δ : Rat) (hlo : ((x.ceil : Int) : Rat) - 1 + δ ≤ x) (hhi : x ≤ ((x.ceil : Int) : Rat) - δ)
+    (he : |e| < δ) : Rat.ceil (x + e) = Rat.ceil x := ceil_stable x e δ hlo hhi he
 
 /-! non-vacuity: 7 × 10 voxels, 3 × 4 patches, overlaps 1 and 2 -/
 def exA0 : Axis := ⟨7, 3, pvInt 7 3, 1⟩
